@@ -76,6 +76,9 @@ struct SetObs {
   bool inlineState = true;      // SmallSet: currently stores its elements in the inline vector; FlatSet: n/a
   bool empty = true;
   size_t capacity = 0;          // FlatSet with extras
+  const void *data = nullptr;   // FlatSet with extras: data() of the underlying vector
+  bool dataInside = false;      // ... and whether it lies inside the set object (inline storage)
+  size_t elemSize = 0;
 };
 
 struct SetType {
